@@ -4,6 +4,9 @@ PROP = {
     "modules": ["YorkieModel.Props.C06"],
     "engines": [
         {"name": "time", "quick": {"n": 4000, "workers": 8}, "thorough": {"n": 400000, "workers": 14}},
+        # real multi-replica Document histories: the model predicts the ID of every local change and the
+        # document clock after every applied remote change (CID / CIDQ lines)
+        {"name": "crdt", "quick": {"n": 1200, "workers": 6}, "thorough": {"n": 60000, "workers": 14}},
     ],
     "trusted_base": BASE_TB + [
         "int64 lamport / uint32 clientSeq modelled as unbounded Int/Nat (no property is about their wrap-around)",
@@ -14,5 +17,6 @@ PROP = {
     "technique": "Lean 4 proof (induction over client traces) + differential replay of time/change packages",
     "partial": [],
     "not_modelled": ["pre-attach edits (SetActor rewrites only the actor of the ID): generator class not yet in the trace stream"],
-    "assumptions": ["client applies changes through ID.Next/SyncClocks/SetClocks exactly as Model/Time.lean (checked by the `time` engine per call)"],
+    "assumptions": ["client applies changes through ID.Next/SyncClocks/SetClocks exactly as Model/Time.lean (checked per call by the `time` engine and on real Document histories by the CID/CIDQ lines of the `crdt` engine)",
+                    "server rows / response minVV on a real server are compared by the proto engine (C04/C11) once merged; here MinVersionVector itself is tied per call"],
 }
